@@ -813,3 +813,6 @@ M('k24a-waiters-deduplicated-by-line-name', ['C13', 'C06', 'C01'], S, "        i
   'a waiter is not recorded when a line of the same NAME (in another form) already waits for the input (seed C13-S)')
 M('k24a-waiters-recorded-with-setdefault', ['C13', 'C06', 'C01'], S, "        if dependency_name not in self._unmet:\n            self._unmet[dependency_name] = [dependent]\n        else:\n            self._unmet[dependency_name].append(dependent)\n",
   "        self._unmet.setdefault(dependency_name, []).append(dependent)\n", None, 'the same bookkeeping written with setdefault', expect='silent')
+M('r9-7-amounts-in-a-set-is-not-a-gate-matter', ['C09'], Y22 + 'f1040.py', "            return sum([v[f'w-2:{n}.box_1'] for n in range(i['number_w-2'])]) if i['number_w-2'] > 0 else None\n",
+  "            return sum({v[f'w-2:{n}.box_1'] for n in range(i['number_w-2'])}) if i['number_w-2'] > 0 else None\n", None,
+  'the wage total of a refusing line loses amounts (C02/C16 report it): every copy is still tested for the statutory-employee box', expect='silent')
